@@ -25,6 +25,9 @@ type PackagesFacade struct {
 	packagesCache  map[string]*packages.Package // pkgPath → *packages.Package
 	packageToFiles map[string][]*ast.File       // pkgPath → []*ast.File
 
+	// Absolute names of the files matched by the configured globs. Packages that are loaded lazily while
+	// resolving types register their files too (positions, owning package) but those files are not sources
+	sourceFileNames map[string]struct{}
 }
 
 func NewPackagesFacade(config PackageFacadeConfig) (PackagesFacade, error) {
@@ -37,6 +40,8 @@ func NewPackagesFacade(config PackageFacadeConfig) (PackagesFacade, error) {
 
 		packagesCache:  make(map[string]*packages.Package),
 		packageToFiles: map[string][]*ast.File{},
+
+		sourceFileNames: map[string]struct{}{},
 	}
 
 	err := facade.initWithGlobs()
@@ -52,6 +57,11 @@ func (facade *PackagesFacade) GetAllSourceFiles() []*ast.File {
 	// files are visited (route order, import serials) is the same on every run
 	fileNames := make([]string, 0, len(facade.files))
 	for fileName := range facade.files {
+		// Only what the globs matched: a file that entered the cache because some type needed its package
+		// must not contribute controllers when the analysis is run again
+		if _, isSource := facade.sourceFileNames[fileName]; !isSource {
+			continue
+		}
 		fileNames = append(fileNames, fileName)
 	}
 	slices.Sort(fileNames)
@@ -107,6 +117,10 @@ func (facade *PackagesFacade) initWithGlobs() error {
 
 			pkgPathsToLoad.Add(filepath.Dir(pkgPath))
 		}
+	}
+
+	for matched := range matchedAbsPaths {
+		facade.sourceFileNames[matched] = struct{}{}
 	}
 
 	err := facade.loadPackagesFiltered(pkgPathsToLoad.ToSlice(), matchedAbsPaths)
